@@ -1,6 +1,6 @@
 package main
 
-// Engine amt (C15): api.StringToAmount, api.AmountToString, masswallet.AmountToString.
+// Engine amt (C15): api.StringToAmount, cmd/masswalletcli/cmd.stringToAmount, api.AmountToString, masswallet.AmountToString.
 
 import (
 	"fmt"
@@ -11,6 +11,7 @@ import (
 
 	"github.com/massnetorg/mass-core/massutil"
 	"massnet.org/mass-wallet/api"
+	clicmd "massnet.org/mass-wallet/cmd/masswalletcli/cmd"
 	"massnet.org/mass-wallet/masswallet"
 )
 
@@ -26,6 +27,17 @@ func execAmt(a []string) string {
 			return "bad-op"
 		}
 		amt, err := api.StringToAmount(string(b))
+		if err != nil {
+			return "err"
+		}
+		return "ok " + strconv.FormatUint(amt.UintValue(), 10)
+	case len(a) == 2 && a[0] == "cli":
+		// cmd/masswalletcli/cmd.stringToAmount (cmd_binding.go) through the build-tag hook
+		b, ok := unhexTok(a[1])
+		if !ok {
+			return "bad-op"
+		}
+		amt, err := clicmd.VerifStringToAmount(string(b))
 		if err != nil {
 			return "err"
 		}
